@@ -26,7 +26,7 @@ pub fn get_fee_denom(deps: Deps) -> StdResult<FeeDenomResponse> {
 pub fn get_buckets(deps: Deps, bucket_owner: &str, page_num: u8) -> StdResult<MultiBucketResponse> {
     let valid_owner = deps.api.addr_validate(bucket_owner)?;
 
-    let to_skip_usize = usize::from(page_num * 20 - 20);
+    let to_skip_usize = (usize::from(page_num) * 20).saturating_sub(20);
 
     let user_buckets: Vec<_> = BUCKETS
         .prefix(valid_owner)
@@ -52,7 +52,7 @@ pub fn get_listings_by_owner(
 ) -> StdResult<MultiListingResponse> {
     let valid_owner = deps.api.addr_validate(owner)?;
 
-    let to_skip_usize = usize::from(page_num * 20 - 20);
+    let to_skip_usize = (usize::from(page_num) * 20).saturating_sub(20);
 
     let listing_data: Vec<_> = listingz()
         .prefix(&valid_owner)
@@ -115,7 +115,7 @@ pub fn get_listings_for_market(
     let current_time = env.block.time.seconds();
     let two_weeks_ago_in_seconds = current_time - 1_209_600;
 
-    let to_skip_usize = usize::from(page_num * 20 - 20);
+    let to_skip_usize = (usize::from(page_num) * 20).saturating_sub(20);
 
     let listings_in_range: Vec<_> = listingz()
         .idx
